@@ -29,6 +29,7 @@ OUT_E1 = "memberships > 3 records, > 2 indirect helpers, > 2 pending backlog ent
 PROPS = {
     "C01": {
         "level": "model_checking",
+        "technique": "Kani/CBMC bounded model checking of Members::apply / Foca::apply_many / handle_data on symbolic states; MIR->SMT-LIB2 (z3 + cvc5) for Member::can_change; native replay of counterexamples",
         "bounds": "Members-level laws: arbitrary base record (or none), 2 arbitrary updates for one address (all u8 generations, all u16 incarnations, 3 states), symbolic insertion RNG; Foca level: " + BOUNDS_E1,
         "outside": "composition over sequences longer than 2 is by the prose argument of DESIGN §4 C01 (commute + idempotent + frame); " + OUT_E1,
         "assumptions": [STUBS],
@@ -83,6 +84,7 @@ PROPS = {
     },
     "C07": {
         "level": "model_checking",
+        "technique": "Kani/CBMC bounded model checking of the private send_message for every packet-size boundary with an independent grammar oracle; MIR->SMT-LIB2 (z3 + cvc5) for the message-kind gates; native replay",
         "bounds": "private send_message on " + BOUNDS_E1 + "; packet sizes 9,10,12,13,16,17,21,22,27,32 (every boundary of header 10 / count 2 / member 5 / item 2+3); <= 2 pending updates, <= 2 pending 3-byte items; fixed-size kit codec; failing codec for Feed",
         "outside": "variable-length identity encodings and serde codecs at the Foca level (their framing is C20); packets > 36 bytes; > 2 items per section",
         "assumptions": [STUBS, "grammar oracle parse_datagram enumerates the finitely many layouts of the fixed-size kit format"],
@@ -150,6 +152,7 @@ PROPS = {
     },
     "C14": {
         "level": "model_checking",
+        "technique": "Kani/CBMC bounded model checking of Members::next with fully symbolic shuffles over 2n-1 rounds",
         "bounds": "Members::next on 3/4/5 records with symbolic states (1..=3 active), any cursor (0..=5, usize::MAX, arbitrary), fully symbolic 64-bit RNG draws for the shuffle (k5: narrow tape), 5 consecutive rounds >= 2n-1",
         "outside": "n > 3 active members; memberships > 5 records", "assumptions": [],
         "harnesses": [
@@ -159,6 +162,7 @@ PROPS = {
     },
     "C15": {
         "level": "model_checking",
+        "technique": "Kani/CBMC on the real broadcast.rs against a nondeterministic heap model + sender-side gates in-crate; MIR->SMT-LIB2 (z3 + cvc5) for the message-kind gates; native replay",
         "owns": ["C15", "C06"],
         "bounds": "real broadcast.rs against the heap model: <= 3 entries, budgets 1..=255 symbolic, entry lengths concrete per instance (1..4), space 0..=14 and max_items symbolic; sender gate: " + BOUNDS_E1,
         "outside": "> 3 backlog entries (model capacity 3); the induction from one fill to max_transmissions datagrams is the prose argument of DESIGN §4 C15",
@@ -174,6 +178,7 @@ PROPS = {
     },
     "C16": {
         "level": "model_checking",
+        "technique": "Kani/CBMC on the real broadcast.rs against a nondeterministic heap model + in-crate handle_data/add_broadcast/broadcast obligations; MIR->SMT-LIB2 (z3 + cvc5) for allow_custom_broadcasts",
         "owns": ["C16", "C06"],
         "bounds": "real broadcast.rs against the heap model (<= 3 items, arbitrary 3x3 invalidation relation); Foca level: " + BOUNDS_E1 + "; 3-byte items, symbolic handler answer and recipient predicate",
         "outside": "items > 6 bytes, > 2 pending items, 64 KiB length truncation", "assumptions": [STUBS],
@@ -219,6 +224,7 @@ PROPS = {
     },
     "C20": {
         "level": "model_checking",
+        "technique": "Kani/CBMC bounded model checking of the bundled postcard/bincode codecs through the public Codec trait (round-trip, short buffers, arbitrary bytes; reference encoding for bincode)",
         "owns": ["C20", "C06"],
         "bounds": "identity type SId{u8,u8}; every Message variant (one harness each), all incarnations/probe numbers; postcard: monolithic round-trip with one trailing byte, every buffer limit 0..=6, arbitrary byte strings <= 8 (member) / <= 12 (header); bincode: encode == reference encoding, decode(reference) == value, short buffers, arbitrary <= 6 bytes",
         "outside": "identities owning heap data (String/Vec); inputs > 12 bytes; the mid-feed clause is decided in C07 (c07_send_feed_failing)",
